@@ -283,6 +283,9 @@ def deserialize_address(address, encoding=None, network=None):
                 elif networks_p2sh:
                     script_type = 'p2sh'
                     networks = networks_p2sh
+                else:
+                    raise EncodingError("Invalid address %s, unknown version byte %s" %
+                                        (address, address_prefix.hex()))
                 if network:
                     if network not in networks:
                         raise BKeyError("Network %s not found in extracted networks: %s" % (network, networks))
